@@ -23,6 +23,52 @@ add("C47", "vh-misc", True, "exploration",
     "Generated multi-fragment Display values are written into buffers of every size around the exact fit inside a guard frame; text, NUL position, reported length, error and guard bytes are checked against std's own formatting.",
     "Expected text comes from std's String formatter. Held only on the inputs explored.")
 
+# not built yet: crate assignment only
+P.setdefault("C01", dict(crate="vh-rt", built=False))
+P.setdefault("C02", dict(crate="vh-rt", built=False))
+P.setdefault("C03", dict(crate="vh-rt", built=False))
+P.setdefault("C04", dict(crate="vh-rt", built=False))
+P.setdefault("C05", dict(crate="vh-rt", built=False))
+P.setdefault("C06", dict(crate="vh-rt", built=False))
+P.setdefault("C08", dict(crate="vh-rt", built=False))
+P.setdefault("C09", dict(crate="vh-rt", built=False))
+P.setdefault("C10", dict(crate="vh-rt", built=False))
+P.setdefault("C11", dict(crate="vh-rt", built=False))
+P.setdefault("C14", dict(crate="vh-rt", built=False))
+P.setdefault("C16", dict(crate="vh-rt", built=False))
+P.setdefault("C17", dict(crate="vh-rt", built=False))
+P.setdefault("C19", dict(crate="vh-rt", built=False))
+P.setdefault("C20", dict(crate="vh-rt", built=False))
+P.setdefault("C12", dict(crate="vh-store", built=False))
+P.setdefault("C13", dict(crate="vh-store", built=False))
+P.setdefault("C18", dict(crate="vh-store", built=False))
+P.setdefault("C22", dict(crate="vh-pol", built=False))
+P.setdefault("C23", dict(crate="vh-pol", built=False))
+P.setdefault("C24", dict(crate="vh-pol", built=False))
+P.setdefault("C28", dict(crate="vh-pol", built=False))
+P.setdefault("C30", dict(crate="vh-pol", built=False))
+P.setdefault("C25", dict(crate="vh-robust", built=False))
+P.setdefault("C26", dict(crate="vh-robust", built=False))
+P.setdefault("C27", dict(crate="vh-robust", built=False))
+P.setdefault("C31", dict(crate="vh-robust", built=False))
+P.setdefault("C32", dict(crate="vh-robust", built=False))
+P.setdefault("C07", dict(crate="vh-vmrt", built=False))
+P.setdefault("C29", dict(crate="vh-vmrt", built=False))
+P.setdefault("C35", dict(crate="vh-vmrt", built=False))
+P.setdefault("C34", dict(crate="vh-cry", built=False))
+P.setdefault("C36", dict(crate="vh-cry", built=False))
+P.setdefault("C37", dict(crate="vh-cry", built=False))
+P.setdefault("C45", dict(crate="vh-cry", built=False))
+P.setdefault("C38", dict(crate="vh-afc", built=False))
+P.setdefault("C39", dict(crate="vh-afc", built=False))
+P.setdefault("C15", dict(crate="vh-crash", built=False))
+P.setdefault("C33", dict(crate="vh-sched", built=False))
+P.setdefault("C40", dict(crate="vh-sched", built=False))
+P.setdefault("C41", dict(crate="vh-sched", built=False))
+P.setdefault("C42", dict(crate="vh-sched", built=False))
+P.setdefault("C43", dict(crate="vh-sched", built=False))
+P.setdefault("C44", dict(crate="vh-sched", built=False))
+
 def crate_of(p):
     return P[p]["crate"] if p in P else None
 
